@@ -75,14 +75,21 @@ let run (f : string list) : string =
       (match store ty (unhex a), store ty (unhex b) with
        | Some x, Some y -> if equal ty x y then "0" else "1"
        | _ -> "E")
-  | ["srt"; ty; a; b] ->
-      (* a is inserted first; b goes after the last element that is not greater than b *)
-      (match store ty (unhex a), store ty (unhex b) with
-       | Some x, Some y ->
-           (match sortc ty y x with
-            | Lt -> hex (canon ty y) ^ " " ^ hex (canon ty x)
-            | _ -> hex (canon ty x) ^ " " ^ hex (canon ty y))
-       | _ -> "E")
+  | "srt" :: ty :: vals ->
+      (* the values are inserted one by one; each goes after the last element that is not greater than it *)
+      let stored = List.map (fun h -> store ty (unhex h)) vals in
+      if List.exists (fun o -> o = None) stored then "E"
+      else begin
+        let rec insert y l =
+          (* position after the last element x with not (y < x): scan from the right *)
+          match l with
+          | [] -> [y]
+          | x :: r ->
+              if List.exists (fun z -> sortc ty y z <> Lt) r then x :: insert y r
+              else (match sortc ty y x with Lt -> y :: x :: r | _ -> x :: insert y r) in
+        let seq = List.fold_left (fun acc o -> match o with Some x -> insert x acc | None -> acc) [] stored in
+        String.concat " " (List.map (fun x -> hex (canon ty x)) seq)
+      end
   | _ -> "?"
 
 let () = main_loop run
